@@ -405,6 +405,44 @@ class Func:
             work.extend(s for s in self.blocks[n].succs if s is not None)
         return seen
 
+    def reach_avoiding(self, start, target, avoid):
+        """Is block `target` reachable from block `start` without entering block `avoid`?"""
+        seen = set()
+        work = [start]
+        while work:
+            n = work.pop()
+            if n == target:
+                return True
+            if n in seen or n == avoid:
+                continue
+            seen.add(n)
+            work.extend(s for s in self.blocks[n].succs if s is not None)
+        return False
+
+    def edge_conds(self, target):
+        """[(cond elem, truth)] for every two-way branch that dominates the
+        element `target` and only one of whose edges can reach it."""
+        res = []
+        dom = self.dominators()
+        tb = target.block.id
+        for b in self.blocks.values():
+            if b.cond is None or len(b.succs) != 2 or b.id == tb or b.id not in dom.get(tb, ()):
+                continue
+            t, fl = b.succs
+            rt = t is not None and self.reach_avoiding(t, tb, b.id)
+            rf = fl is not None and self.reach_avoiding(fl, tb, b.id)
+            if rt and not rf:
+                res.append((b.cond, True))
+            elif rf and not rt:
+                res.append((b.cond, False))
+        return res
+
+    def always_passes(self, a, b):
+        """Every path from element a to the function exit passes element b's block."""
+        if a.block.id == b.block.id:
+            return b.i > a.i
+        return not self.reach_avoiding(a.block.id, self.exit, b.block.id) or a.block.id == b.block.id
+
     def __repr__(self):
         return "<Func %s>" % self.qname
 
